@@ -521,8 +521,22 @@ fn report_failure(st: &mut St, history: &[Op], inj: Inject, real: Result<&[(usiz
             classify(history, real.get(i).map(|r| r.1), exp.get(i).map(|r| r.1))
         }
     };
+    // keep the SHORTEST history per key; the (costly) step-by-step trace is only built for it
+    if let Some(v) = st.v.by_key.get_mut(&key) {
+        v.count += 1;
+        if v.replay["history"].as_array().is_some_and(|h| h.len() <= history.len()) {
+            return;
+        }
+    }
     let what = format!("{what} [history: {}; time source: {}]", history.iter().map(|o| o.name()).collect::<Vec<_>>().join(", "), inj.name());
-    st.v.add(key, what, json!({"part": "stopwatch", "injection": inj.name(), "history": history_json(history), "trace": trace(history, inj)}));
+    let replay = json!({"part": "stopwatch", "injection": inj.name(), "history": history_json(history), "trace": trace(history, inj)});
+    match st.v.by_key.get_mut(&key) {
+        Some(v) => {
+            v.what = what;
+            v.replay = replay;
+        }
+        None => st.v.add(key, what, replay),
+    }
 }
 
 fn check(st: &mut St, history: &[Op], inj: Inject) {
@@ -603,6 +617,8 @@ pub struct Summary {
 }
 
 pub fn run(rep: &mut Report) -> Summary {
+    // measured on 16 cores: depth 8 = 11.8 M histories in ~1 s, depth 9 = 105 M in ~10 s,
+    // depth 10 = 944 M in ~80 s (VERIF_C18_DEPTH overrides, for measuring only)
     let depth: usize = std::env::var("VERIF_C18_DEPTH").ok().and_then(|s| s.parse().ok()).unwrap_or(rep.tier.pick(8, 10));
     // the thread-local injection routes are searched two levels less deep
     let plans = [(Inject::Explicit, depth), (Inject::ThreadLocalHeld, depth - 2), (Inject::ThreadLocalDropped, depth - 2)];
